@@ -812,16 +812,15 @@ def gen_sched_case(rng, kind, seed):
     for _ in range(nthreads):
         p = []
         for _ in range(rng.choice([1, 2, 2, 3])):         # transactions per thread
-            n = rng.choice([1, 1, 2])
-            for _ in range(n):
-                o = rng.choice(objs)
-                r = rng.random()
-                if r < 0.7:
-                    p.append(['write', 0, o, rng.choice([1, 2, 3])])
-                elif r < 0.85:
-                    p.append(['readcur', 0, o])
-                else:
-                    p.append(['read', 0, o])
+            # every transaction writes (readCurrent only matters to a transaction that writes)
+            if rng.random() < 0.45:
+                p.append(['readcur', 0, rng.choice(objs)])
+            if rng.random() < 0.2:
+                p.append(['read', 0, rng.choice(objs)])
+            for _ in range(rng.choice([1, 1, 2])):
+                p.append(['write', 0, rng.choice(objs), rng.choice([1, 2, 3])])
+            if rng.random() < 0.2:
+                p.append(['readcur', 0, rng.choice(objs)])
             p.append(['commit', 0])
         progs.append(p)
     return dict(section='sched', kind=kind, objs=objs, cls=cls, progs=progs, sched_seed=seed,
@@ -973,7 +972,26 @@ def shrink(case, sig, tmp):
     if case['section'] == 'db':
         small = ddmin(case['prog'], lambda sub: fails_with(dict(case, prog=sub)), max_tests=150)
         return dict(case, prog=small)
-    return case
+    # schedules: drop whole transactions of the thread programs (same scheduler seed; the run stays
+    # deterministic, the schedule is re-drawn for the smaller programs)
+    groups = []
+    for ti, prog in enumerate(case['progs']):
+        g = []
+        for st in prog:
+            g.append(st)
+            if st[0] == 'commit':
+                groups.append((ti, g))
+                g = []
+        if g:
+            groups.append((ti, g))
+
+    def rebuild(gs):
+        progs = [[] for _ in case['progs']]
+        for ti, g in gs:
+            progs[ti] += g
+        return dict(case, progs=progs, schedule=None)
+    small = ddmin(groups, lambda sub: fails_with(rebuild(sub)), max_tests=60)
+    return rebuild(small)
 
 
 def trivial_hash(case):
@@ -998,7 +1016,7 @@ def main(argv=None):
                 if fn.endswith('.json'):
                     with open(os.path.join(cdir, fn)) as f:
                         cases.append(json.load(f))
-        n_st, n_db, n_sc = (60, 40, 50) if not ck.thorough else (1500, 800, 2500)
+        n_st, n_db, n_sc = (60, 40, 100) if not ck.thorough else (2500, 1500, 4000)
         for kind in KINDS:
             for _ in range(n_st):
                 cases.append(gen_storage_case(ck.rng, kind, ck.rng.choice([12, 25, 40, 60])))
